@@ -1887,6 +1887,9 @@ class PyCdlib:
                     self._rr_moved_rr_name, self.logical_block_size,
                     False, False, self.xa, 0o040555, time.time())
         num_bytes_to_add = self._add_child_to_dr(rec)
+        # A long Rock Ridge name puts part of the record into a continuation
+        # area, which has to be allocated like that of any other record.
+        num_bytes_to_add += self._update_rr_ce_entry(rec)
 
         self._create_dot(self.pvd, rec, self.rock_ridge, self.xa, 0o040555)
         self._create_dotdot(self.pvd, rec, self.rock_ridge, False, self.xa,
